@@ -306,7 +306,7 @@ pub fn property() -> Property {
         subchecks: vec![
             SubCheck {
                 name: "histories",
-                driver: Driver::Generated { gen: gen_walk_case, genome_len: 320, quick: 250_000, thorough: 5_000_000 },
+                driver: Driver::Generated { gen: gen_walk_case, genome_len: 320, quick: 750_000, thorough: 6_000_000 },
                 check: history_check,
                 configs: Configs::Both,
                 required: &["special_move", "capture", "undo_interleaved", "null_move", "castling_right", "ep_mark"],
@@ -315,7 +315,7 @@ pub fn property() -> Property {
             },
             SubCheck {
                 name: "undo_histories",
-                driver: Driver::Generated { gen: gen_walk_case, genome_len: 320, quick: 200_000, thorough: 4_000_000 },
+                driver: Driver::Generated { gen: gen_walk_case, genome_len: 320, quick: 600_000, thorough: 4_800_000 },
                 check: undo_history_check,
                 configs: Configs::Both,
                 required: &["undo_checked", "illegal_rollback"],
@@ -324,7 +324,7 @@ pub fn property() -> Property {
             },
             SubCheck {
                 name: "fresh_boards",
-                driver: Driver::Generated { gen: gen_fresh_case, genome_len: 288, quick: 400_000, thorough: 8_000_000 },
+                driver: Driver::Generated { gen: gen_fresh_case, genome_len: 288, quick: 1_200_000, thorough: 9_600_000 },
                 check: fresh_check,
                 configs: Configs::ReleaseOnly,
                 required: &["normalised_by_gate", "mark_dropped_by_gate", "refused"],
@@ -333,7 +333,7 @@ pub fn property() -> Property {
             },
             SubCheck {
                 name: "transpositions",
-                driver: Driver::Generated { gen: gen_transposition_case, genome_len: 200, quick: 400_000, thorough: 8_000_000 },
+                driver: Driver::Generated { gen: gen_transposition_case, genome_len: 200, quick: 1_200_000, thorough: 9_600_000 },
                 check: transposition_check,
                 configs: Configs::ReleaseOnly,
                 required: &["transposition", "counters_changed"],
